@@ -66,14 +66,14 @@ func (s *zzSuite) Init(ms, cr, sr []byte, isClient bool) error {
 
 	return nil
 }
-func (s *zzSuite) IsInitialized() bool                                      { return s.inits > 0 }
+func (s *zzSuite) IsInitialized() bool                                     { return s.inits > 0 }
 func (s *zzSuite) Decrypt(_ recordlayer.Header, in []byte) ([]byte, error) { return in, nil }
 func (s *zzSuite) Encrypt(_ *recordlayer.RecordLayer, raw []byte) ([]byte, error) {
 	return raw, nil
 }
 
 // zzStore is an abstract session store: a list of (key, id, secret) entries plus a log of every call made
-// on it. mode selects the behaviour of Get: 0 normal lookup, 1 Get fails.
+// on it. failGet makes Get fail. Del removes the entries with exactly that key.
 type zzStore struct {
 	keys, ids, secrets [][]byte
 	failGet            bool
